@@ -1266,8 +1266,24 @@ def gen_suite(rng, i):
             break
     finally:
         _GEN['components'], _GEN['abs_prefixes'] = COMPONENTS, None
-    k = rng.randint(paths[0] + 1, len(defs))  # the head holds at least the first path definition
-    head, tail = defs[:k], defs[k:]
+    if rng.chance(0.7):
+        # directed: the suite file continues the chain of the case's newest path symbol by 1-2 definitions and uses the end of it
+        head, tail, cur = defs, [], defs[paths[-1]][0]
+        _GEN['components'], _GEN['abs_prefixes'] = S_COMPONENTS, 'none'
+        try:
+            for t in range(rng.randint(1, 2)):
+                tail.append(('P%d' % (100 + t), 'path', ref_form(rng, cur)))
+                cur = tail[-1][0]
+            cand = ref_form(rng, cur) if rng.chance(0.8) else arg
+        finally:
+            _GEN['components'], _GEN['abs_prefixes'] = COMPONENTS, None
+        if count_dotdot(tail, cand) == 0 and stays_inside('/nonexistent-root', tail, cand):
+            arg = cand
+        else:
+            tail = []
+    else:
+        k = rng.randint(paths[0] + 1, len(defs))  # the head holds at least the first path definition
+        head, tail = defs[:k], defs[k:]
     n_members = rng.randint(2, 3)
     heads = []
     for j in range(n_members):
